@@ -117,8 +117,21 @@ def run_check(P, tier, seed, a):
                 b['cap'] = cap
             all_batches.append(b)
     t_s0 = time.time()
+    # obligations that already fail at a known point first; then the rest under a per-job solver budget, so that a badly
+    # broken tree (hundreds of hard sat-direction queries) ends in a bounded time with the violations found so far
+    all_batches.sort(key=lambda b: 0 if b.get('hinted') else 1)
+    spent = {}
+    budget = {i: (j.get('solver_budget_quick', 600) if quick else j.get('solver_budget_thorough', 7200)) for i, j in enumerate(jobs)}
+
+    def solve_one(b):
+        if not b.get('hinted') and spent.get(b['job'], 0.0) > budget[b['job']]:
+            return dict(answers=['skipped-budget'] * len(b['goals']), wall=0.0, solver='none')
+        r = driver.solve_batch(b, quick)
+        if any(x not in ('sat', 'unsat', 'structural') for x in r['answers']):
+            spent[b['job']] = spent.get(b['job'], 0.0) + r['wall']
+        return r
     with ThreadPoolExecutor(a.jobs) as ex:
-        results = list(ex.map(lambda b: driver.solve_batch(b, quick), all_batches))
+        results = list(ex.map(solve_one, all_batches))
     t_solve = time.time() - t_s0
     stats = dict(obligations=0, discharged=0, trivial=0, undecided=[], sat=[], solver_time=0.0, queries=0, by_solver={},
                  witness_ok=0, witness_bad=[], bits_structural=[])
@@ -139,7 +152,7 @@ def run_check(P, tier, seed, a):
                 elif ans == 'unsat':
                     stats['witness_bad'].append(rec)
                 else:
-                    stats['undecided'].append(rec)
+                    stats.setdefault('witness_undecided', []).append(rec)
                 continue
             if ans == 'unsat':
                 stats['discharged'] += 1
@@ -254,6 +267,14 @@ def run_check(P, tier, seed, a):
             pruned_late = locals().get('pruned_late', 0) + 1
             continue
         problems.append(f'job {jobs[rec["job"]].get("label")}: assumptions/premises of path {rec["path"]} are unsatisfiable (vacuous)')
+    # vacuity: a path whose satisfiability the solver could not settle is tolerated only if the same job has at least one
+    # path with an explicit witness (its obligations are then not all vacuous)
+    wu = stats.get('witness_undecided', [])
+    for ji in sorted(set(r['job'] for r in wu)):
+        s_ = summaries[ji]
+        have = s_.get('concrete_witnesses', 0) + s_.get('numeric_witnesses', 0) + sum(1 for b, r in zip(all_batches, results) if b['job'] == ji and b['kind'] == 'witness' and 'sat' in r['answers'])
+        if have == 0:
+            problems.append(f'job {jobs[ji].get("label")}: no path could be shown satisfiable (possible vacuity)')
     for d in diffs:
         if not d.get('ok'):
             problems.append(f'differential validation failed for job {jobs[d["idx"]].get("label")}: {d.get("why")}')
@@ -270,13 +291,13 @@ def run_check(P, tier, seed, a):
               ', '.join(f'{jobs[r["job"]].get("label")}:{r["tag"]}[{r["k"]}]={r["answer"]}' for r in undec[:5]))
     cov = dict(
         explanation='bounded symbolic execution of the LLVM IR of the real sources (llsym) + SMT (z3 4.8.12 / cvc5 1.0.3): one query per obligation',
-        obligations=stats['obligations'], discharged=stats['discharged'], trivial_same_term=stats['trivial'],
+        obligations=stats['obligations'] - len(stats.get('witness_undecided', [])), discharged=stats['discharged'], trivial_same_term=stats['trivial'],
         evaluations=stats['queries'], distinct_nontrivial=stats['obligations'] - stats['trivial'],
         rule='an obligation is one assertion of one path of one harness configuration; it is non-trivial when its two sides are different hash-consed terms (a solver query was needed)',
         undecided=[dict(job=jobs[r['job']].get('label'), obligation=f'{r["tag"]}[{r["k"]}]', answer=r['answer']) for r in undec[:50]],
         n_undecided=len(undec),
         sat_obligations=len(stats['sat']), known_finding_obligations=sum(len(vs) for e, vs in known_hits.values()),
-        path_witnesses_sat=stats['witness_ok'], path_witnesses_concrete=sum(s.get('concrete_witnesses', 0) for s in summaries), path_witnesses_numeric_only=sum(s.get('numeric_witnesses', 0) for s in summaries),
+        path_witnesses_sat=stats['witness_ok'], path_feasibility_undecided=len(stats.get('witness_undecided', [])), path_witnesses_concrete=sum(s.get('concrete_witnesses', 0) for s in summaries), path_witnesses_numeric_only=sum(s.get('numeric_witnesses', 0) for s in summaries),
         jobs=[dict(label=jobs[s['idx']].get('label'), entry=s['entry'], args=s['args'], paths=len(s['paths']), outcomes=s['outcomes'],
                    ir_steps=s['steps'], symbols=s['nsyms'], terms=s['nterms'], obligations=s['obligations'], trivial=s['trivial'],
                    exec_s=round(s.get('exec_s', 0), 2)) for s in summaries][:200],
